@@ -28,7 +28,8 @@ def isLead (b : UInt8) : Bool := (b &&& 0xC0) != 0x80
 
 /-- `s.is_char_boundary(i)` for valid UTF-8 `s`. -/
 def isBoundary (s : Bytes) (i : Nat) : Bool :=
-  if i == s.length then true
+  if i == 0 then true          -- `if index == 0 { return true; }` in core::str
+  else if i == s.length then true
   else match s[i]? with
     | some b => isLead b
     | none => false
